@@ -4,6 +4,19 @@ NOT_APPLICABLE = {('C%02d' % i): TODO for i in range(1, 21)}
 R_NOTE = ('R-model: floats are mathematical reals, float literals are the decimal rationals written in the source, '
           'transcendental functions are uninterpreted with sound axiom instances; IEEE rounding is outside the claim. ')
 CHECKS = {
+    'C19': {
+        'text': 'Bounded symbolic execution + SMT: joins/radiations/polar2rect/rect2polar, va_conv, first_vel_params, part_h2o_vap_press, '
+                'first_vel_corrn (three input forms), phase/group_refractivity (real source) on symbolic inputs over the physical box: '
+                'closure of radiations(joins) from the atan2 polar axiom, bearing in [0, 360), rotation/scale arguments, Pythagoras and '
+                'height shift of va_conv on both zenith branches, rejected invalid angles, no exception outcome and every division '
+                'defined over the atmosphere box including 0 C and 0 %, proportionality to the distance, Rueger vapour-pressure formulae, '
+                'CO2 form = (n_ref/n_g - 1) d with correct argument order (callee summaries), and group = phase + sigma d/dsigma by '
+                'forward-mode differentiation of the traced phase term (rational identity, exact literals).',
+        'design_ref': 'DESIGN.md section 7 C19',
+        'note': R_NOTE + 'NOT claimed: 1 ppm agreement of the closed-form and Ciddor branches (needs values of exp). In the CO2 branch '
+                'the saturation pressure is a bounded uninterpreted function (0..100 hPa).',
+        'technique': 'symbolic execution of the real Python source + SMT (z3 NRA, uninterpreted exp/atan2/sqrt with axiom instances), witness replay',
+    },
     'C16': {
         'text': 'Bounded symbolic execution + SMT: rotation_matrix, enu2xyz/xyz2enu, vcv_cart2local/vcv_local2cart (3x3 and 3x1 column), '
                 'error_ellipse, relative_error and k_val95 (real source, numpy facade) on symbolic latitude/longitude, vectors and '
